@@ -636,7 +636,7 @@ func envInt(name string, def int) int {
 //
 // Shapes are taken up to isomorphism, id orders up to the relative order of siblings and up
 // to the automorphisms of the shape. Cases are dealt to shards by world, so that a shard
-// builds every reference once.
+// builds every reference once. Knobs for a slow machine: C06_MAXN, C06_TRIPLE, C06_SAMPLE.
 func enumerate(yield func(XCase) bool) {
 	shard, shards := envInt("VERIF_SHARD", 0), envInt("VERIF_SHARDS", 1)
 	if shards < 1 {
@@ -657,6 +657,10 @@ func enumerate(yield func(XCase) bool) {
 	if v := envInt("C06_SAMPLE", -1); v >= 0 {
 		sample = v
 	}
+	if v := envInt("C06_TRIPLE", 0); v > 0 {
+		triple = v
+	}
+	worldNo := map[uint64]int{}
 	for n := 1; n <= maxN; n++ {
 		perms := permutations(n)
 		for i := range perms {
@@ -689,7 +693,14 @@ func enumerate(yield func(XCase) bool) {
 					return World{N: n, Parents: s.parents, Rank: rank, Snap: snaps[pl], Base: bases[pl]}
 				}
 				emit := func(w World, a int) bool {
-					if int(vstat.HashJSON(w)%uint64(shards)) != shard {
+					// worlds are dealt round-robin in enumeration order (balanced shards)
+					wk := vstat.HashJSON(w)
+					wi, ok := worldNo[wk]
+					if !ok {
+						wi = len(worldNo)
+						worldNo[wk] = wi
+					}
+					if wi%shards != shard {
 						return true
 					}
 					c := XCase{W: w, Perm: perms[a/nCuts], Cuts: a % nCuts}
